@@ -89,7 +89,9 @@ def dec_ctx(node):
     if t == "bool":
         return bool(node["n"])
     if t == "list":
-        return []
+        return ["x"] * int(node["n"])
+    if t == "tuple":
+        return ("x",) * int(node["n"])
     return str(node["v"])
 
 
@@ -104,8 +106,8 @@ def enc_ctx(obj):
         return {"k": "L", "t": "int", "n": obj, "v": str(obj)}
     if isinstance(obj, str):
         return {"k": "L", "t": "str", "n": 0, "v": obj}
-    if isinstance(obj, list) and not obj:
-        return {"k": "L", "t": "list", "n": 0, "v": "[]"}
+    if isinstance(obj, (list, tuple)) and all(x == "x" for x in obj):
+        return {"k": "L", "t": "list" if isinstance(obj, list) else "tuple", "n": len(obj), "v": str(obj)}
     raise ValueError("cannot encode leaf %r" % (obj,))
 
 
@@ -300,7 +302,8 @@ def random_spec(rnd, depth, want_obj=False):
 
 
 def random_leafval(rnd):
-    return rnd.choice([1, 0, -1, 5, 2, "x", "y", "5", "1", None, None, 0, "", False, [], {}])
+    return rnd.choice([1, 0, -1, 5, 2, "x", "y", "5", "1", None, None, 0, "", False, [], {},
+                       "xy", "yx", "x y", ["x"], ("x", "x"), "None.", "55"])
 
 
 def random_ctx(rnd, depth=3, keys=("a", "b", "c", "x")):
@@ -352,7 +355,7 @@ def dotted(path):
 
 
 def gm_args(G, M, style=0):
-    """group_by / merge arguments for key path lists G, M."""
+    """group_by / merge arguments for key path lists G, M (in the order in which they are written)."""
     g = tuple(dotted(p) for p in G)
     m = tuple(dotted(p) for p in M)
     if style == 1:
@@ -389,4 +392,12 @@ def random_gm(rnd, alphabet=("a", "b", "c", "d"), maxdepth=3):
         listed[p] = other if rnd.random() < 0.8 else listed[q]
     G = sorted(list(p) for p, k in listed.items() if k == "G")
     M = sorted(list(p) for p, k in listed.items() if k == "M")
+    # the order of writing is free: sorted, deeper keys first, or any other
+    t = rnd.random()
+    if t < 0.3:
+        G.reverse()
+        M.reverse()
+    elif t < 0.7:
+        rnd.shuffle(G)
+        rnd.shuffle(M)
     return G, M
